@@ -1,50 +1,838 @@
-//! C16 probe (temporary first version)
+//! C16: runs nitrogql's GraphQL printer (`GraphQLPrinter::print_graphql`), `print_string`, `JustWriter`,
+//! `JsStringWriter`, `remove_builtins`, the model plugin's runtime transform and (optionally) the real
+//! CLI's `serverGraphqlOutput` on generated inputs; re-parses every printed text with the real parser;
+//! writes the inputs and everything observed as Coq terms for coq/C16/Corr.v.
+//!
+//! extra arguments: `--cli <path to nitrogql-cli>` (end-to-end module cases), `--no-node`.
+use nitrogql_ast::operation_ext::{ExecutableDefinitionExt, OperationDocumentExt};
+use nitrogql_ast::selection_set::{Selection, SelectionSet};
+use nitrogql_ast::type_system::*;
+use nitrogql_ast::value::Value;
+use nitrogql_ast::{TypeSystemDocument, TypeSystemOrExtensionDocument};
 use nitrogql_parser::{parse_operation_document, parse_type_system_document};
+use nitrogql_plugin::{ModelPlugin, PluginV1Beta};
+use nitrogql_printer::verif_hooks::print_string;
 use nitrogql_printer::GraphQLPrinter;
-use sourcemap_writer::{JsStringWriter, JustWriter};
+use nitrogql_semantics::resolve_schema_extensions;
+use serde_json::{json, Value as J};
+use sourcemap_writer::{JsStringWriter, JustWriter, SourceMapWriter};
+use std::collections::{BTreeMap, HashSet};
+use std::panic::AssertUnwindSafe;
+use std::path::{Path, PathBuf};
+use std::process::Command;
+use verif_harness::gen::{gen_doc, gen_schema, DocCfg, SchemaCfg};
+use verif_harness::rec::{wops_coq, Rec, Wop};
 use verif_harness::*;
 
-fn just<T: GraphQLPrinter>(d: &T) -> String {
+#[allow(dead_code)]
+#[path = "/repo/crates/cli/src/builtins.rs"]
+mod cli_builtins;
+
+// ------------------------------------------------------------------ Coq printing of texts
+
+/// multi-line texts as `(nl [line; line; …])` so that printable lines stay Coq string literals
+fn coq_text(s: &str) -> String {
+    if !s.contains('\n') { return coq_str(s); }
+    let lines: Vec<&str> = s.split('\n').collect();
+    format!("(nl {})", coq_list(&lines, |l| coq_str(l)))
+}
+fn coq_ops(ops: &[Wop]) -> String {
+    // same as rec::wops_coq but with multi-line chunks printed through `nl`
+    if ops.iter().all(|o| match o { Wop::W(s) | Wop::WF(s, _, _) => !s.contains('\n') || s.len() < 3, _ => true }) {
+        return wops_coq(ops);
+    }
+    coq_list(ops, |o| match o {
+        Wop::W(s) => format!("W {}", coq_text(s)),
+        Wop::WF(s, p, n) => format!("WF {} {} {}", coq_text(s), ast_coq::pos(p), coq_opt(n, |x| coq_str(x))),
+        Wop::Indent => "Indent".into(),
+        Wop::Dedent => "Dedent".into(),
+    })
+}
+
+// ------------------------------------------------------------------ running the printers
+
+fn run_ops<W: SourceMapWriter>(w: &mut W, ops: &[Wop]) {
+    for o in ops {
+        match o {
+            Wop::W(s) => w.write(s),
+            Wop::WF(s, p, n) => w.write_for(s, &nitrogql_ast::base::NamePos { name: n.as_deref(), pos: *p }),
+            Wop::Indent => w.indent(),
+            Wop::Dedent => w.dedent(),
+        }
+    }
+}
+fn just_of<T: GraphQLPrinter>(d: &T) -> String {
     let mut b = String::new();
     { let mut w = JustWriter::new(&mut b); d.print_graphql(&mut w); }
     b
 }
-fn js<T: GraphQLPrinter>(d: &T) -> String {
+fn js_of<T: GraphQLPrinter>(d: &T) -> String {
     let mut b = String::new();
     { let mut w = JsStringWriter::new(&mut b); d.print_graphql(&mut w); }
     b
+}
+fn rec_of<T: GraphQLPrinter>(d: &T) -> Vec<Wop> {
+    let mut r = Rec::new();
+    d.print_graphql(&mut r);
+    r.0
+}
+
+// ------------------------------------------------------------------ string values of a document (for classification)
+
+#[derive(Default)]
+struct Strs(Vec<String>);
+impl Strs {
+    fn value(&mut self, v: &Value) {
+        match v {
+            Value::StringValue(s) => self.0.push(s.value.clone()),
+            Value::ListValue(l) => for x in &l.values { self.value(x) },
+            Value::ObjectValue(o) => for (_, x) in &o.fields { self.value(x) },
+            _ => {}
+        }
+    }
+    fn dirs(&mut self, ds: &[nitrogql_ast::directive::Directive]) {
+        for d in ds { if let Some(a) = &d.arguments { for (_, v) in &a.arguments { self.value(v) } } }
+    }
+    fn desc(&mut self, d: &Option<nitrogql_ast::value::StringValue>) { if let Some(d) = d { self.0.push(d.value.clone()) } }
+    fn inputval(&mut self, i: &InputValueDefinition) {
+        self.desc(&i.description);
+        if let Some(v) = &i.default_value { self.value(v) }
+        self.dirs(&i.directives);
+    }
+    fn fields(&mut self, fs: &[FieldDefinition]) {
+        for f in fs {
+            self.desc(&f.description);
+            if let Some(a) = &f.arguments { for i in &a.input_values { self.inputval(i) } }
+            self.dirs(&f.directives);
+        }
+    }
+    fn enumvals(&mut self, vs: &[EnumValueDefinition]) { for v in vs { self.desc(&v.description); self.dirs(&v.directives); } }
+    fn typedef(&mut self, t: &TypeDefinition) {
+        match t {
+            TypeDefinition::Scalar(d) => { self.desc(&d.description); self.dirs(&d.directives) }
+            TypeDefinition::Object(d) => { self.desc(&d.description); self.dirs(&d.directives); self.fields(&d.fields) }
+            TypeDefinition::Interface(d) => { self.desc(&d.description); self.dirs(&d.directives); self.fields(&d.fields) }
+            TypeDefinition::Union(d) => { self.desc(&d.description); self.dirs(&d.directives) }
+            TypeDefinition::Enum(d) => { self.desc(&d.description); self.dirs(&d.directives); self.enumvals(&d.values) }
+            TypeDefinition::InputObject(d) => { self.desc(&d.description); self.dirs(&d.directives); for i in &d.fields { self.inputval(i) } }
+        }
+    }
+    fn typeext(&mut self, t: &TypeExtension) {
+        match t {
+            TypeExtension::Scalar(d) => self.dirs(&d.directives),
+            TypeExtension::Object(d) => { self.dirs(&d.directives); self.fields(&d.fields) }
+            TypeExtension::Interface(d) => { self.dirs(&d.directives); self.fields(&d.fields) }
+            TypeExtension::Union(d) => self.dirs(&d.directives),
+            TypeExtension::Enum(d) => { self.dirs(&d.directives); self.enumvals(&d.values) }
+            TypeExtension::InputObject(d) => { self.dirs(&d.directives); for i in &d.fields { self.inputval(i) } }
+        }
+    }
+    fn directivedef(&mut self, d: &DirectiveDefinition) {
+        self.desc(&d.description);
+        if let Some(a) = &d.arguments { for i in &a.input_values { self.inputval(i) } }
+    }
+    fn tsdoc_ext(&mut self, d: &TypeSystemOrExtensionDocument) {
+        for x in &d.definitions {
+            match x {
+                TypeSystemDefinitionOrExtension::SchemaDefinition(s) => { self.desc(&s.description); self.dirs(&s.directives) }
+                TypeSystemDefinitionOrExtension::TypeDefinition(t) => self.typedef(t),
+                TypeSystemDefinitionOrExtension::DirectiveDefinition(d) => self.directivedef(d),
+                TypeSystemDefinitionOrExtension::SchemaExtension(s) => self.dirs(&s.directives),
+                TypeSystemDefinitionOrExtension::TypeExtension(t) => self.typeext(t),
+            }
+        }
+    }
+    fn tsdoc(&mut self, d: &TypeSystemDocument) {
+        for x in &d.definitions {
+            match x {
+                TypeSystemDefinition::SchemaDefinition(s) => { self.desc(&s.description); self.dirs(&s.directives) }
+                TypeSystemDefinition::TypeDefinition(t) => self.typedef(t),
+                TypeSystemDefinition::DirectiveDefinition(d) => self.directivedef(d),
+            }
+        }
+    }
+    fn selset(&mut self, s: &SelectionSet) {
+        for x in &s.selections {
+            match x {
+                Selection::Field(f) => {
+                    if let Some(a) = &f.arguments { for (_, v) in &a.arguments { self.value(v) } }
+                    self.dirs(&f.directives);
+                    if let Some(s) = &f.selection_set { self.selset(s) }
+                }
+                Selection::FragmentSpread(f) => self.dirs(&f.directives),
+                Selection::InlineFragment(f) => { self.dirs(&f.directives); self.selset(&f.selection_set) }
+            }
+        }
+    }
+    fn opdoc(&mut self, d: &OperationDocumentExt) {
+        for x in &d.definitions {
+            match x {
+                ExecutableDefinitionExt::OperationDefinition(o) => {
+                    if let Some(vs) = &o.variables_definition {
+                        for v in &vs.definitions { if let Some(d) = &v.default_value { self.value(d) } self.dirs(&v.directives) }
+                    }
+                    self.dirs(&o.directives);
+                    self.selset(&o.selection_set);
+                }
+                ExecutableDefinitionExt::FragmentDefinition(f) => { self.dirs(&f.directives); self.selset(&f.selection_set) }
+                ExecutableDefinitionExt::Import(i) => self.0.push(i.path.value.clone()),
+            }
+        }
+    }
+}
+
+/// features of a printed document that decide which known-finding classes a failure may belong to
+fn features(strs: &[String], ops: &[Wop]) -> J {
+    let mut unescaped = vec![];     // single-line value with a double quote or a backslash
+    let mut block_delim = vec![];   // multi-line value containing three quotes in a row, or ending in a quote or a backslash
+    let mut cr_in_block = false;    // multi-line value with a carriage return (template literal: CR, CRLF -> LF)
+    for v in strs {
+        if !v.contains('\n') {
+            if v.contains('"') || v.contains('\\') { unescaped.push(v.clone()); }
+        } else {
+            if v.contains("\"\"\"") || v.ends_with('"') || v.ends_with('\\') { block_delim.push(v.clone()); }
+            if v.contains('\r') { cr_in_block = true; }
+        }
+    }
+    // a block-string chunk with a non-empty continuation line, written while the indent level is > 0
+    let mut reindented = 0;
+    let mut level: i64 = 0;
+    for o in ops {
+        match o {
+            Wop::Indent => level += 1,
+            Wop::Dedent => level = (level - 1).max(0),
+            Wop::W(c) | Wop::WF(c, _, _) => {
+                if level > 0 && c.starts_with("\"\"\"") && c.split('\n').skip(1).any(|l| !l.is_empty()) { reindented += 1; }
+            }
+        }
+    }
+    json!({"unescaped": unescaped, "block_delimiter": block_delim, "cr_in_block": cr_in_block, "block_reindented": reindented})
+}
+
+// ------------------------------------------------------------------ document cases
+
+struct Out { cases: Cases, distinct: HashSet<String>, stats: BTreeMap<String, u64>, reparse_fail: u64 }
+impl Out {
+    fn bump(&mut self, k: &str) { *self.stats.entry(k.to_string()).or_insert(0) += 1; }
+}
+
+/// a type-system (or extension) document given as source text
+fn ts_case(out: &mut Out, src: &str, stream: &str) -> bool {
+    let doc = match catch(AssertUnwindSafe(|| parse_type_system_document(src).map_err(|e| e.into_message()))) {
+        Ok(Ok(d)) => d,
+        _ => { out.bump(&format!("{stream}:source-rejected-by-parser")); return false; }
+    };
+    let ops = rec_of(&doc);
+    let text = just_of(&doc);
+    let js = js_of(&doc);
+    let re = catch(AssertUnwindSafe(|| parse_type_system_document(&text).map(|d| ast_coq::tsdoc_ext(&d)).map_err(|e| e.into_message())));
+    let (re_term, re_err) = match &re { Ok(Ok(t)) => (Some(t.clone()), None), Ok(Err(e)) => (None, Some(e.clone())), Err(p) => (None, Some(format!("panic: {p}"))) };
+    if re_term.is_none() { out.reparse_fail += 1; }
+    let mut st = Strs::default();
+    st.tsdoc_ext(&doc);
+    let mut feat = features(&st.0, &ops);
+    let ext_schema_no_ops = doc.definitions.iter().any(|d| matches!(d, TypeSystemDefinitionOrExtension::SchemaExtension(s) if s.definitions.is_empty()));
+    let ext_union_no_members = doc.definitions.iter().any(|d| matches!(d, TypeSystemDefinitionOrExtension::TypeExtension(TypeExtension::Union(u)) if u.members.is_empty()));
+    feat["extend_schema_without_operations"] = json!(ext_schema_no_ops);
+    feat["extend_union_without_members"] = json!(ext_union_no_members);
+    out.distinct.insert(format!("ts|{src}"));
+    out.bump(&format!("{stream}:documents"));
+    out.cases.push(
+        format!("CTs {} {} {} {} {}", ast_coq::tsdoc_ext(&doc), coq_ops(&ops), coq_text(&text), coq_text(&js), coq_opt(&re_term, |t| t.clone())),
+        json!({"kind":"ts","stream":stream,"source":src,"printed":text,"template":js,"reparse_error":re_err,"features":feat}));
+    true
+}
+
+fn op_case(out: &mut Out, src: &str, stream: &str) -> bool {
+    let doc = match catch(AssertUnwindSafe(|| parse_operation_document(src).map_err(|e| e.into_message()))) {
+        Ok(Ok(d)) => d,
+        _ => { out.bump(&format!("{stream}:source-rejected-by-parser")); return false; }
+    };
+    let ops = rec_of(&doc);
+    let text = just_of(&doc);
+    let js = js_of(&doc);
+    let re = catch(AssertUnwindSafe(|| parse_operation_document(&text).map(|d| ast_coq::opdoc_ext(&d)).map_err(|e| e.into_message())));
+    let (re_term, re_err) = match &re { Ok(Ok(t)) => (Some(t.clone()), None), Ok(Err(e)) => (None, Some(e.clone())), Err(p) => (None, Some(format!("panic: {p}"))) };
+    if re_term.is_none() { out.reparse_fail += 1; }
+    let mut st = Strs::default();
+    st.opdoc(&doc);
+    let feat = features(&st.0, &ops);
+    out.distinct.insert(format!("op|{src}"));
+    out.bump(&format!("{stream}:documents"));
+    out.cases.push(
+        format!("COp {} {} {} {} {}", ast_coq::opdoc_ext(&doc), coq_ops(&ops), coq_text(&text), coq_text(&js), coq_opt(&re_term, |t| t.clone())),
+        json!({"kind":"op","stream":stream,"source":src,"printed":text,"template":js,"reparse_error":re_err,"features":feat}));
+    true
+}
+
+const MODEL_ADDITION: &str = "\ndirective @model(\n  # TypeScript type of this object. Only applicable for whole objects.\n  type: String\n) on OBJECT | FIELD_DEFINITION\n";
+
+/// the resolved schema as the CLI builds it: parse, built-ins, nitrogql built-ins, plugin additions, resolve
+fn resolved<'a>(src: &'a str, plugin: bool) -> Result<TypeSystemDocument<'a>, String> {
+    let mut doc = parse_type_system_document(src).map_err(|e| format!("parse: {}", e.into_message()))?;
+    doc.extend(graphql_builtins::generate_builtins());
+    doc.extend(cli_builtins::nitrogql_builtins());
+    if plugin {
+        let add = parse_type_system_document(MODEL_ADDITION).map_err(|e| format!("addition: {}", e.into_message()))?;
+        doc.extend(add.definitions);
+    }
+    resolve_schema_extensions(doc).map_err(|e| format!("resolve: {e:?}"))
+}
+
+/// where a directive is applied, for the classes of the server-schema stream
+fn server_features(doc: &TypeSystemDocument, plugin: bool) -> J {
+    let has = |ds: &[nitrogql_ast::directive::Directive], n: &str| ds.iter().any(|d| d.name.name == n);
+    let mut model_elsewhere = false; // @model somewhere the runtime transform does not look (valid: interface fields)
+    if plugin {
+        for d in &doc.definitions {
+            if let TypeSystemDefinition::TypeDefinition(t) = d {
+                match t {
+                    TypeDefinition::Interface(i) => { if has(&i.directives, "model") || i.fields.iter().any(|f| has(&f.directives, "model")) { model_elsewhere = true; } }
+                    _ => {}
+                }
+            }
+        }
+    }
+    json!({"model_on_interface": model_elsewhere})
+}
+
+fn server_case(out: &mut Out, src: &str, plugin: bool, stream: &str) -> bool {
+    let doc = match catch(AssertUnwindSafe(|| resolved(src, plugin))) {
+        Ok(Ok(d)) => d,
+        _ => { out.bump(&format!("{stream}:source-rejected")); return false; }
+    };
+    let mut stripped = cli_builtins::remove_builtins(&doc);
+    if plugin {
+        if let Some(next) = (ModelPlugin {}).transform_document_for_runtime_server(&stripped) { stripped = next; }
+    }
+    let ops = rec_of(&stripped);
+    let text = just_of(&stripped);
+    let js = js_of(&stripped);
+    let re = catch(AssertUnwindSafe(|| parse_type_system_document(&text).map(|d| ast_coq::tsdoc_ext(&d)).map_err(|e| e.into_message())));
+    let (re_term, re_err) = match &re { Ok(Ok(t)) => (Some(t.clone()), None), Ok(Err(e)) => (None, Some(e.clone())), Err(p) => (None, Some(format!("panic: {p}"))) };
+    if re_term.is_none() { out.reparse_fail += 1; }
+    let mut st = Strs::default();
+    st.tsdoc(&stripped);
+    let mut feat = features(&st.0, &ops);
+    feat["server"] = server_features(&doc, plugin);
+    out.distinct.insert(format!("server|{plugin}|{src}"));
+    out.bump(&format!("{stream}:documents"));
+    out.cases.push(
+        format!("CServer {} {} {} {} {} {} {}", coq_bool(plugin), ast_coq::tsdoc(&doc), ast_coq::tsdoc(&stripped), coq_ops(&ops), coq_text(&text), coq_text(&js), coq_opt(&re_term, |t| t.clone())),
+        json!({"kind":"server","stream":stream,"model_plugin":plugin,"source":src,"printed":text,"template":js,"reparse_error":re_err,"features":feat}));
+    true
+}
+
+// ------------------------------------------------------------------ generators of source text
+
+const PLAIN_STRS: &[&str] = &["", "a description", "x", "unicode \u{e9} \u{65e5}\u{672c} \u{1F600}", "tick ` and ${x} and $ { }", "tab\there", "cr\rhere", "bell\u{7}del\u{7f}nel\u{85}", "  padded  ", "# not a comment", "a, b", "{}[]()!@$&|=:...", "'single'", "/* c */ // d"];
+const PLAIN_MULTI: &[&str] = &["multi\nline", "first\n\nthird", "trailing newline\n", "\nleading newline", "a\n  indented\n    more\n", "ends in two \"\"\n\"quotes\" inside\nfine", "dollar ${\nbrace} `tick`\n"];
+const ADV_STRS: &[&str] = &["with \"quotes\"", "back\\slash", "\\", "\"", "ends with backslash\\", "\\n not a newline", "\\u{41}", "\\\"", "a\"b\\c", "\\u0041 \\t \\/", "quote \" and ${x} and `"];
+const ADV_MULTI: &[&str] = &["ends with quote\n\"", "tri\"\"\"ple\n", "x\\\"\"\"y\n", "ends with backslash\n\\", "cr\r\nlf", "lone cr\rthen\nlf", "\"\"\"\n", "a\n\"\"\"\"\"\"b"];
+
+fn lit_normal(v: &str, rng: &mut Rng) -> String {
+    let mut o = String::from("\"");
+    for c in v.chars() {
+        match c {
+            '"' => o.push_str("\\\""),
+            '\\' => o.push_str("\\\\"),
+            '\n' => o.push_str("\\n"),
+            '\r' => o.push_str("\\r"),
+            '\t' => o.push_str(if rng.chance(1, 2) { "\\t" } else { "\\u0009" }),
+            '/' if rng.chance(1, 3) => o.push_str("\\/"),
+            c if (c as u32) < 0x20 || (0x7f..0xa0).contains(&(c as u32)) => o.push_str(&if rng.chance(1, 2) { format!("\\u{:04x}", c as u32) } else { format!("\\u{{{:X}}}", c as u32) }),
+            c if (c as u32) > 0xffff && rng.chance(1, 2) => o.push_str(&format!("\\u{{{:x}}}", c as u32)),
+            c => o.push(c),
+        }
+    }
+    o.push('"');
+    o
+}
+/// a literal whose nitrogql value is `v`: a quoted string with escapes, or (when `v` can be written that way) a block string
+fn lit(v: &str, rng: &mut Rng) -> String {
+    let block_ok = !v.contains("\"\"\"") && !v.ends_with('"') && !v.ends_with('\\');
+    if block_ok && (v.contains('\n') && rng.chance(1, 2) || rng.chance(1, 8)) { format!("\"\"\"{v}\"\"\"") } else { lit_normal(v, rng) }
+}
+
+#[derive(Clone, Copy, PartialEq)]
+enum Mode { Plain, Adversarial }
+
+struct Syn<'a> { rng: &'a mut Rng, mode: Mode, top: bool }
+impl<'a> Syn<'a> {
+    fn name(&mut self) -> String {
+        (*self.rng.pick(&["a", "b", "id", "user", "Node", "T1", "_x", "__y", "on", "query", "type", "input", "extend", "schema", "fragment", "implements", "repeatable", "from", "import", "E_1", "nullable", "trueish", "Float"])).to_string()
+    }
+    fn tyname(&mut self) -> String { (*self.rng.pick(&["Int", "String", "Boolean", "ID", "Float", "T", "U", "In", "E", "Node", "on", "type"])).to_string() }
+    fn ty(&mut self, d: usize) -> String {
+        match self.rng.below(if d > 2 { 2 } else { 4 }) {
+            0 => self.tyname(),
+            1 => format!("{}!", self.tyname()),
+            2 => format!("[{}]", self.ty(d + 1)),
+            _ => format!("[{}]!", self.ty(d + 1)),
+        }
+    }
+    /// a string value; multi-line values only where the caller says the literal is printed at indent 0
+    fn string(&mut self, multi_ok: bool) -> String {
+        let v: &str = match self.mode {
+            Mode::Plain => if multi_ok && self.rng.chance(1, 3) { self.rng.pick(PLAIN_MULTI) } else { self.rng.pick(PLAIN_STRS) },
+            Mode::Adversarial => match self.rng.below(6) {
+                0 => self.rng.pick(PLAIN_STRS), 1 => self.rng.pick(PLAIN_MULTI), 2 | 3 => self.rng.pick(ADV_STRS), _ => self.rng.pick(ADV_MULTI),
+            },
+        };
+        lit(v, self.rng)
+    }
+    fn value(&mut self, d: usize, konst: bool) -> String {
+        let n = if d > 2 { 7 } else { 9 };
+        match self.rng.below(n) {
+            0 => (*self.rng.pick(&["0", "-0", "7", "-12", "123456789012345678901234567890"])).to_string(),
+            1 => (*self.rng.pick(&["1.5", "-0.25", "2e3", "1.0E-2", "6.02e+23", "0.0", "1."])).to_string(),
+            2 => self.string(false),
+            3 => (*self.rng.pick(&["true", "false"])).to_string(),
+            4 => "null".to_string(),
+            5 => (*self.rng.pick(&["RED", "on", "type", "nullx", "truely", "query", "E_1"])).to_string(),
+            6 => if konst { "1".into() } else { format!("${}", self.name()) },
+            7 => { let k = self.rng.below(4); let xs: Vec<String> = (0..k).map(|_| self.value(d + 1, konst)).collect(); format!("[{}]", xs.join(if self.rng.chance(1, 2) { ", " } else { " " })) }
+            _ => { let k = self.rng.below(4); let xs: Vec<String> = (0..k).map(|_| format!("{}: {}", self.name(), self.value(d + 1, konst))).collect(); format!("{{{}}}", xs.join(", ")) }
+        }
+    }
+    fn args(&mut self, konst: bool) -> String {
+        let k = self.rng.range(1, 3);
+        let xs: Vec<String> = (0..k).map(|_| format!("{}: {}", self.name(), self.value(0, konst))).collect();
+        format!("({})", xs.join(", "))
+    }
+    fn dirs(&mut self, konst: bool) -> String {
+        let mut o = String::new();
+        for _ in 0..(match self.rng.below(6) { 0..=3 => 0, 4 => 1, _ => 2 }) {
+            o.push_str(" @");
+            o.push_str(&self.name());
+            if self.rng.chance(1, 2) { o.push_str(&self.args(konst)); }
+        }
+        o
+    }
+    /// description: `top` = printed at indent 0
+    fn desc(&mut self, top: bool, ind: &str) -> String {
+        if !self.rng.chance(1, 3) { return String::new(); }
+        format!("{}{}\n", ind, self.string(top))
+    }
+    fn inputval(&mut self, ind: &str, sep: &str) -> String {
+        format!("{}{}{}: {}{}{}{}", self.desc(false, ind), ind, self.name(), self.ty(0),
+                if self.rng.chance(1, 3) { format!(" = {}", self.value(0, true)) } else { String::new() }, self.dirs(true), sep)
+    }
+    fn argsdef(&mut self) -> String {
+        if !self.rng.chance(1, 3) { return String::new(); }
+        let k = self.rng.range(1, 3);
+        let mut o = String::from("(");
+        for i in 0..k { o.push_str(&self.inputval(" ", if i + 1 < k { "," } else { "" })); }
+        o.push(')');
+        o
+    }
+    fn fields(&mut self) -> String {
+        let k = self.rng.range(1, 4);
+        let mut o = String::from(" {\n");
+        for _ in 0..k { o.push_str(&format!("{}  {}{}: {}{}\n", self.desc(false, "  "), self.name(), self.argsdef(), self.ty(0), self.dirs(true))); }
+        o.push('}');
+        o
+    }
+    fn implements(&mut self) -> String {
+        match self.rng.below(5) { 0 => " implements Node".into(), 1 => " implements & Node & T1".into(), 2 => " implements A & B & C".into(), _ => String::new() }
+    }
+    fn enumvals(&mut self) -> String {
+        let k = self.rng.range(1, 4);
+        let mut o = String::from(" {\n");
+        for _ in 0..k { o.push_str(&format!("{}  {}{}\n", self.desc(false, "  "), self.rng.pick(&["RED", "GREEN", "on", "type", "nullable", "E_1"]), self.dirs(true))); }
+        o.push('}');
+        o
+    }
+    fn inputfields(&mut self) -> String {
+        let k = self.rng.range(1, 3);
+        let mut o = String::from(" {\n");
+        for _ in 0..k { o.push_str(&self.inputval("  ", "\n")); }
+        o.push('}');
+        o
+    }
+    fn rootops(&mut self) -> String {
+        let mut ops = vec!["query", "mutation", "subscription"];
+        self.rng.shuffle(&mut ops);
+        let k = self.rng.range(1, 3);
+        let mut o = String::from(" {");
+        for t in &ops[..k] { o.push_str(&format!(" {}: {}", t, self.tyname())); }
+        o.push_str(" }");
+        o
+    }
+    /// one type-system definition or extension; `exts`: extensions allowed
+    fn tsdef(&mut self, exts: bool) -> String {
+        let n = if exts { 16 } else { 8 };
+        match self.rng.below(n) {
+            0 => format!("{}scalar {}{}", self.desc(true, ""), self.name(), self.dirs(true)),
+            1 => format!("{}type {}{}{}{}", self.desc(true, ""), self.name(), self.implements(), self.dirs(true), self.fields()),
+            2 => { let d = self.desc(true, ""); let n = self.name(); let im = self.implements(); let ds = self.dirs(true); let body = if self.rng.chance(3, 4) { self.fields() } else { String::new() }; format!("{d}interface {n}{im}{ds}{body}") }
+            3 => { let d = self.desc(true, ""); let n = self.name(); let ds = self.dirs(true); let ms = match self.rng.below(4) { 0 => " = A".to_string(), 1 => " = | A | B".into(), 2 => " = A | B | on".into(), _ => " = A|B".into() }; format!("{d}union {n}{ds}{ms}") }
+            4 => { let d = self.desc(true, ""); let n = self.name(); let ds = self.dirs(true); let body = if self.rng.chance(3, 4) { self.enumvals() } else { String::new() }; format!("{d}enum {n}{ds}{body}") }
+            5 => { let d = self.desc(true, ""); let n = self.name(); let ds = self.dirs(true); let body = if self.rng.chance(3, 4) { self.inputfields() } else { String::new() }; format!("{d}input {n}{ds}{body}") }
+            6 => { let d = self.desc(true, ""); let n = self.name(); let a = self.argsdef(); let rep = if self.rng.chance(1, 3) { " repeatable" } else { "" };
+                   let locs = match self.rng.below(4) { 0 => "FIELD", 1 => "| QUERY | FIELD_DEFINITION", 2 => "SCALAR | OBJECT | ENUM_VALUE | INPUT_FIELD_DEFINITION", _ => "FRAGMENT_SPREAD|INLINE_FRAGMENT|VARIABLE_DEFINITION" };
+                   format!("{d}directive @{n}{a}{rep} on {locs}") }
+            7 => format!("{}schema{}{}", self.desc(true, ""), self.dirs(true), self.rootops()),
+            8 => format!("extend scalar {} @{}", self.name(), self.name()),
+            9 => { let n = self.name(); match self.rng.below(3) { 0 => format!("extend type {n}{}{}{}", self.implements(), self.dirs(true), self.fields()), 1 => format!("extend type {n}{} @d", self.implements()), _ => format!("extend type {n} implements Node") } }
+            10 => { let n = self.name(); match self.rng.below(3) { 0 => format!("extend interface {n}{}{}{}", self.implements(), self.dirs(true), self.fields()), 1 => format!("extend interface {n} @d"), _ => format!("extend interface {n} implements Node") } }
+            11 => { let n = self.name(); if self.mode == Mode::Adversarial && self.rng.chance(1, 3) { format!("extend union {n} @d") } else { format!("extend union {n}{} = A | B", self.dirs(true)) } }
+            12 => { let n = self.name(); if self.rng.chance(1, 3) { format!("extend enum {n} @d") } else { format!("extend enum {n}{}{}", self.dirs(true), self.enumvals()) } }
+            13 => { let n = self.name(); if self.rng.chance(1, 3) { format!("extend input {n} @d") } else { format!("extend input {n}{}{}", self.dirs(true), self.inputfields()) } }
+            14 => if self.mode == Mode::Adversarial && self.rng.chance(1, 2) { format!("extend schema @{}", self.name()) } else { format!("extend schema{}{}", self.dirs(true), self.rootops()) },
+            _ => format!("{}scalar {}", self.desc(true, ""), self.name()),
+        }
+    }
+    fn tsdoc(&mut self, exts: bool) -> String {
+        let k = self.rng.range(1, 6);
+        let mut o = String::new();
+        for _ in 0..k {
+            o.push_str(&self.tsdef(exts));
+            o.push_str(*self.rng.pick(&["\n", "\n\n", "\n# a comment\n", " ,\n"]));
+        }
+        o
+    }
+    fn selset(&mut self, d: usize) -> String {
+        let k = self.rng.range(1, if d > 2 { 2 } else { 4 });
+        let mut o = String::from("{");
+        for _ in 0..k {
+            o.push(' ');
+            match self.rng.below(if d > 2 { 6 } else { 10 }) {
+                0..=4 => {
+                    if self.rng.chance(1, 4) { o.push_str(&format!("{}: ", self.name())); }
+                    o.push_str(&self.name());
+                    if self.rng.chance(1, 3) { o.push_str(&self.args(false)); }
+                    o.push_str(&self.dirs(false));
+                    if d <= 2 && self.rng.chance(1, 3) { o.push(' '); o.push_str(&self.selset(d + 1)); }
+                }
+                5 => { let n = *self.rng.pick(&["F", "G", "fragment", "query", "onx", "type"]); o.push_str(&format!("...{}{}", n, self.dirs(false))); }
+                6 | 7 => { o.push_str(&format!("... on {}{} {}", self.tyname(), self.dirs(false), self.selset(d + 1))); }
+                _ => { o.push_str(&format!("...{} {}", self.dirs(false), self.selset(d + 1))); }
+            }
+        }
+        o.push_str(" }");
+        o
+    }
+    fn vardefs(&mut self) -> String {
+        if !self.rng.chance(1, 2) { return String::new(); }
+        let k = self.rng.range(1, 3);
+        let xs: Vec<String> = (0..k).map(|_| format!("${}: {}{}{}", self.name(), self.ty(0), if self.rng.chance(1, 2) { format!(" = {}", self.value(0, true)) } else { String::new() }, self.dirs(true))).collect();
+        format!("({})", xs.join(", "))
+    }
+    fn opdoc(&mut self, imports: bool) -> String {
+        let mut o = String::new();
+        if imports {
+            for _ in 0..self.rng.below(3) {
+                let t = *self.rng.pick(&["*", "A", "A, B", "A B , C", "*, A", "query, on"]);
+                let p = match self.mode { Mode::Plain => *self.rng.pick(&["./frag.graphql", "../a b/c.graphql", "x", "\u{e9}.graphql"]), Mode::Adversarial => *self.rng.pick(&["./fr\"ag.graphql", "C:\\dir\\f.graphql", "./ok.graphql"]) };
+                o.push_str(&format!("#import {} from {}\n", t, lit_normal(p, self.rng)));
+            }
+        }
+        let k = self.rng.range(1, 3);
+        for _ in 0..k {
+            match self.rng.below(6) {
+                0 => o.push_str(&self.selset(0)),
+                1 | 2 | 3 => {
+                    let t = *self.rng.pick(&["query", "mutation", "subscription"]);
+                    let n = if self.rng.chance(2, 3) { format!(" {}", self.name()) } else { String::new() };
+                    o.push_str(&format!("{}{}{}{} {}", t, n, self.vardefs(), self.dirs(false), self.selset(0)));
+                }
+                _ => { let n = *self.rng.pick(&["F", "G", "fragment", "query", "onx"]); o.push_str(&format!("fragment {} on {}{} {}", n, self.tyname(), self.dirs(false), self.selset(0))); }
+            }
+            o.push_str(*self.rng.pick(&["\n", "\n\n", " # c\n"]));
+        }
+        o
+    }
+}
+
+// ------------------------------------------------------------------ node: real template-literal evaluation
+
+const NODE_EVAL: &str = r#"
+import fs from 'node:fs';
+const srcs = JSON.parse(fs.readFileSync(process.argv[2], 'utf8'));
+let calls = 0, last = null;
+globalThis.__T = (strs, ...subs) => { calls++; last = (subs.length === 0 && strs.length === 1 && strs[0] !== undefined) ? { v: strs[0] } : null; return last; };
+const out = srcs.map(src => {
+  calls = 0; last = null;
+  try { const r = (0, eval)('__T' + src); return (calls === 1 && r !== null && r === last) ? r.v : null; } catch (e) { return null; }
+});
+fs.writeFileSync(process.argv[3], JSON.stringify(out));
+"#;
+const NODE_IMPORT: &str = r#"
+import fs from 'node:fs';
+import { pathToFileURL } from 'node:url';
+const files = JSON.parse(fs.readFileSync(process.argv[2], 'utf8'));
+const out = [];
+for (const f of files) { try { const m = await import(pathToFileURL(f).href); out.push(typeof m.schema === 'string' ? m.schema : null); } catch (e) { out.push(null); } }
+fs.writeFileSync(process.argv[3], JSON.stringify(out));
+"#;
+
+fn node_run(script: &str, input: &J, dir: &Path) -> Option<Vec<Option<String>>> {
+    std::fs::create_dir_all(dir).ok()?;
+    let sp = dir.join("script.mjs"); let ip = dir.join("in.json"); let op = dir.join("out.json");
+    std::fs::write(&sp, script).ok()?;
+    std::fs::write(&ip, serde_json::to_string(input).ok()?).ok()?;
+    let _ = std::fs::remove_file(&op);
+    let st = Command::new("node").arg(&sp).arg(&ip).arg(&op).output().ok()?;
+    if !st.status.success() { return None; }
+    let txt = std::fs::read_to_string(&op).ok()?;
+    // lone surrogates cannot occur: every input is a Rust string
+    serde_json::from_str::<Vec<Option<String>>>(&txt).ok()
+}
+
+fn random_template(rng: &mut Rng) -> String {
+    const PIECES: &[&str] = &["a", "b", " ", "\n", "\r", "\r\n", "$", "{", "}", "${", "\\", "\\\\", "\\`", "\\$", "\\{", "`", "\\n", "\\r", "\\t", "\\b", "\\f", "\\v", "\\0", "\\00", "\\1", "\\8", "\\x41", "\\x4", "\\xg1", "\\u0041", "\\u00e9", "\\u004", "\\u{41}", "\\u{1F600}", "\\u{110000}", "\\u{}", "\\u{0000041}", "\\ud800", "\\'", "\\\"", "\\q", "\\\n", "\\\r\n", "\\\u{2028}", "\u{2028}", "\u{e9}", "\u{1F600}", "0", "7", "x", "u", "/*", "//", "'", "\""];
+    let n = rng.below(7);
+    let mut b = String::from("`");
+    for _ in 0..n {
+        // mostly well-formed bodies: an unescaped backtick or substitution only now and then
+        let p = *rng.pick(PIECES);
+        if (p == "`" || p == "${") && !rng.chance(1, 4) { continue; }
+        b.push_str(p);
+    }
+    if !rng.chance(1, 25) { b.push('`'); }
+    if rng.chance(1, 40) { b.push_str(*rng.pick(&["x", ";", " ", "`a`"])); }
+    b
+}
+
+// ------------------------------------------------------------------ end-to-end: the real CLI
+
+fn cli_cases(out: &mut Out, rng: &mut Rng, cli: &Path, n: usize, work: &Path, use_node: bool) -> J {
+    let _ = std::fs::remove_dir_all(work);
+    let mut jobs: Vec<(bool, String, PathBuf)> = vec![];
+    let mut failed = 0;
+    for i in 0..n {
+        let plugin = i % 2 == 1;
+        let src = server_source(rng, plugin, Mode::Plain);
+        let dir = work.join(format!("p{i}"));
+        std::fs::create_dir_all(&dir).unwrap();
+        std::fs::write(dir.join("schema.graphql"), &src).unwrap();
+        let cfg = format!("schema: ./schema.graphql\nextensions:\n  nitrogql:\n{}    generate:\n      serverGraphqlOutput: ./out/schema.mjs\n",
+                          if plugin { "    plugins:\n      - \"nitrogql:model-plugin\"\n" } else { "" });
+        std::fs::write(dir.join("graphql.config.yaml"), cfg).unwrap();
+        let st = Command::new(cli).arg("generate").current_dir(&dir).output();
+        let ok = matches!(&st, Ok(o) if o.status.success()) && dir.join("out/schema.mjs").exists();
+        if !ok { failed += 1; continue; }
+        jobs.push((plugin, src, dir.join("out/schema.mjs")));
+    }
+    let values: Option<Vec<Option<String>>> = if use_node {
+        node_run(NODE_IMPORT, &json!(jobs.iter().map(|j| j.2.to_str().unwrap().to_string()).collect::<Vec<_>>()), &work.join("node"))
+    } else { None };
+    let mut emitted = 0;
+    for (k, (plugin, src, file)) in jobs.iter().enumerate() {
+        let text = std::fs::read_to_string(file).unwrap();
+        let doc = match catch(AssertUnwindSafe(|| resolved(src, *plugin))) { Ok(Ok(d)) => d, _ => continue };
+        let v: Option<String> = values.as_ref().and_then(|vs| vs[k].clone());
+        // without node the exported value is not observed: the case then only ties the module text
+        let re = v.as_ref().and_then(|v| catch(AssertUnwindSafe(|| parse_type_system_document(v).map(|d| ast_coq::tsdoc_ext(&d)).ok())).ok().flatten());
+        emitted += 1;
+        out.distinct.insert(format!("module|{plugin}|{src}"));
+        out.cases.push(
+            format!("CModule {} {} {} {} {} {}", coq_bool(*plugin), ast_coq::tsdoc(&doc), coq_text(&text), coq_bool(values.is_some()), coq_opt(&v, |x| coq_text(x)), coq_opt(&re, |t| t.clone())),
+            json!({"kind":"module","model_plugin":plugin,"source":src,"module_text":text,"node_value":v,"node_used":values.is_some(),"features":{"server": server_features(&doc, *plugin)}}));
+    }
+    json!({"cli_projects": n, "cli_failed": failed, "module_cases": emitted, "node_used": values.is_some()})
+}
+
+/// a valid schema (gen.rs) decorated with what the server output must strip
+fn server_source(rng: &mut Rng, plugin: bool, mode: Mode) -> String {
+    let s = gen_schema(rng, &SchemaCfg { descriptions: false, custom_directives: true });
+    let mut src = s.render();
+    // nitrogql_ts_type on scalars
+    let mut o = String::new();
+    for line in src.lines() {
+        if line.starts_with("scalar ") && rng.chance(2, 3) {
+            o.push_str(&format!("{line} @nitrogql_ts_type(resolverInput: \"string\", resolverOutput: \"Date | string\", operationInput: \"string\", operationOutput: \"string\")\n"));
+        } else if plugin && line.starts_with("type ") && rng.chance(1, 3) {
+            o.push_str(&line.replacen(" {", if rng.chance(1, 2) { " @model {" } else { " @model(type: \"import('./m').M\") {" }, 1)); o.push('\n');
+        } else if plugin && line.starts_with("  ") && line.contains(": ") && !line.starts_with("  query") && !line.starts_with("  mutation") && !line.starts_with("  subscription") && rng.chance(1, 6) {
+            // object, interface and input fields alike (the latter two only in the adversarial stream: not valid / not stripped)
+            o.push_str(&format!("{line} @model\n"));
+        } else { o.push_str(line); o.push('\n'); }
+    }
+    src = o;
+    if mode == Mode::Plain && plugin {
+        // keep @model where the plugin's runtime transform handles it: object types and their fields
+        let mut o = String::new();
+        let mut in_obj = false;
+        for line in src.lines() {
+            if line.starts_with("type ") { in_obj = true; } else if !line.starts_with("  ") && !line.starts_with('}') { in_obj = false; }
+            if !in_obj && line.ends_with(" @model") { o.push_str(line.trim_end_matches(" @model")); } else { o.push_str(line); }
+            o.push('\n');
+        }
+        src = o;
+    }
+    // descriptions and an extension, so that merging and description printing are exercised
+    let mut syn = Syn { rng, mode, top: true };
+    let _ = syn.top;
+    let d = syn.string(true);
+    src = format!("{d}\nscalar Extra\nextend scalar Extra @specifiedBy(url: {})\n{src}", syn.string(false));
+    src
+}
+
+// ------------------------------------------------------------------ main
+
+fn str_case(out: &mut Out, x: &str) {
+    let mut b = String::new();
+    { let mut w = JustWriter::new(&mut b); print_string(x, &mut w); }
+    out.distinct.insert(format!("str|{x}"));
+    out.cases.push(format!("CStr {} {}", coq_str(x), coq_str(&b)), json!({"kind":"string","value":x,"printed":b}));
+}
+
+fn writer_case(out: &mut Out, ops: &[Wop]) {
+    let mut b = String::new();
+    { let mut w = JustWriter::new(&mut b); run_ops(&mut w, ops); }
+    let mut j = String::new();
+    { let mut w = JsStringWriter::new(&mut j); run_ops(&mut w, ops); }
+    let chunks: Vec<&str> = ops.iter().filter_map(|o| match o { Wop::W(s) | Wop::WF(s, _, _) => Some(s.as_str()), _ => None }).collect();
+    let non_empty: Vec<&str> = chunks.iter().cloned().filter(|c| !c.is_empty()).collect();
+    let split_dollar = non_empty.windows(2).any(|w| w[0].ends_with('$') && w[1].starts_with('{'));
+    let has_cr = chunks.iter().any(|c| c.contains('\r'));
+    out.distinct.insert(format!("w|{:?}", ops));
+    out.cases.push(format!("CWriter {} {} {}", coq_ops(ops), coq_text(&b), coq_text(&j)),
+                   json!({"kind":"writer","ops":format!("{:?}", ops),"just":b,"template":j,"features":{"dollar_brace_split_across_writes":split_dollar,"carriage_return":has_cr}}));
 }
 
 fn main() {
     silence_panics();
     let args = parse_args();
-    let kind = args.extra[0].clone();
-    let src = std::fs::read_to_string(&args.extra[1]).unwrap();
-    if kind == "ts" {
-        match parse_type_system_document(&src) {
-            Err(e) => println!("PARSE ERR {}", e.into_message()),
-            Ok(d) => {
-                let t = just(&d);
-                println!("--- just\n{t}--- js\n{}\n---", js(&d));
-                match catch(std::panic::AssertUnwindSafe(|| parse_type_system_document(&t).map(|d2| ast_coq::tsdoc_ext(&d2)).map_err(|e| e.into_message()))) {
-                    Err(p) => println!("REPARSE PANIC {p}"),
-                    Ok(Err(e)) => println!("REPARSE ERR {e}"),
-                    Ok(Ok(s)) => println!("A = {}\nB = {}", ast_coq::tsdoc_ext(&d), s),
-                }
+    let thorough = args.tier == "thorough";
+    let mut rng = Rng::new(args.seed);
+    let mut cli: Option<PathBuf> = None;
+    let mut use_node = true;
+    let mut i = 0;
+    while i < args.extra.len() {
+        match args.extra[i].as_str() { "--cli" => { cli = Some(PathBuf::from(&args.extra[i + 1])); i += 2; } "--no-node" => { use_node = false; i += 1; } _ => { i += 1; } }
+    }
+    let cases = Cases::new("From V Require Import Base.Util Gql.Ast Writer.Wop C16.Model C16.Spec C16.Corr.", "case", "agree", "holds", if thorough { 250 } else { 120 });
+    let mut out = Out { cases, distinct: HashSet::new(), stats: BTreeMap::new(), reparse_fail: 0 };
+
+    // 0. corpus: witnesses of the known findings and past disagreements
+    for x in ["say \"hi\" \\ there", "\"", "\\", "multi\nline ending in \"", "a \"\"\" b\nc", "x\n\\", "", "plain", "tab\tcr\rbell\u{7}", "a\nb", "\u{1F600}\u{9f}\u{a0}"] { str_case(&mut out, x); }
+    for src in ["extend schema @a", "extend union U @d", "scalar S @d(a: \"q\\\"z\")", "type Q {\n  \"\"\"\n  desc\n  \"\"\"\n  f: Int\n}", "union V =\n\"x\" scalar S",
+                "type Q { f(a: String = \"x\", b: [Int] = [1, 2] @d(x: {a: 1, b: \"s\"})): Int @d }\ninterface I\nextend type Q implements I\nenum E\ninput In @d\nschema @a @b(x: 1) { query: Q }"] {
+        ts_case(&mut out, src, "corpus");
+    }
+    for src in ["query Q($a: Int = 3 @dir) { x }", "{ a }", "#import A, B, * from \"./x.graphql\"\nquery ($a: Int = 1 @d, $b: [In!]! = [{a: 1, b: [true, null, E, 1.5e3, \"s\", $x]}]) @e { ...F @d ... on T @d { a } ... @d { b } ... { c } x: y(a: $a, b: {}) @d z(a: []) }\nfragment F on T @d { on: query }\nmutation M { type }\nsubscription { on }"] {
+        op_case(&mut out, src, "corpus");
+    }
+
+    // 1. print_string: every string over an adversarial alphabet up to a length, then random longer ones
+    let alpha: Vec<char> = vec!['a', '"', '\\', '\n', '\r', '`', '$', '{', ' ', '\u{7}', '\u{e9}'];
+    let maxlen = if thorough { 4 } else { 2 };
+    let mut cur: Vec<String> = vec![String::new()];
+    for _ in 0..maxlen {
+        let mut next = vec![];
+        for p in &cur { for c in &alpha { let mut q = p.clone(); q.push(*c); next.push(q); } }
+        for q in &next { str_case(&mut out, q); }
+        cur = next;
+    }
+    let n_rand_str = if thorough { 6000 } else { 500 };
+    for _ in 0..n_rand_str {
+        let n = rng.range(3, 14);
+        let mut x = String::new();
+        for _ in 0..n {
+            match rng.below(12) {
+                0 => x.push('"'), 1 => x.push('\\'), 2 => x.push('\n'), 3 => x.push(*rng.pick(&['\r', '\t', '\u{0}', '\u{1b}', '\u{7f}', '\u{85}', '\u{9f}', '\u{a0}', '\u{2028}', '\u{feff}'])),
+                4 => x.push(*rng.pick(&['`', '$', '{', '}'])), 5 => x.push(*rng.pick(&['\u{e9}', '\u{65e5}', '\u{1F600}', '\u{10FFFF}', '\u{ffff}'])),
+                6 => x.push_str(*rng.pick(&["\"\"\"", "\\\"\"\"", "\"\"", "${", "\\u{41}", "\\n"])),
+                _ => x.push(*rng.pick(&['a', 'b', ' ', 'z', '0', '#', ','])),
             }
         }
-    } else {
-        match parse_operation_document(&src) {
-            Err(e) => println!("PARSE ERR {}", e.into_message()),
-            Ok(d) => {
-                let t = just(&d);
-                println!("--- just\n{t}--- js\n{}\n---", js(&d));
-                match catch(std::panic::AssertUnwindSafe(|| parse_operation_document(&t).map(|d2| ast_coq::opdoc_ext(&d2)).map_err(|e| e.into_message()))) {
-                    Err(p) => println!("REPARSE PANIC {p}"),
-                    Ok(Err(e)) => println!("REPARSE ERR {e}"),
-                    Ok(Ok(s)) => println!("A = {}\nB = {}", ast_coq::opdoc_ext(&d), s),
-                }
+        str_case(&mut out, &x);
+    }
+    out.stats.insert("string_cases".into(), out.cases.len() as u64);
+
+    // 2. the writers on arbitrary operation lists
+    let n_w = if thorough { 6000 } else { 500 };
+    const CHUNKS: &[&str] = &["", "a", "$", "{", "${", "$$", "{{", "`", "\\", "\n", "\n\n", "a\nb", "\na", "a\n", "x$", "{x", "$\n{", "\r", "\r\n", "a\rb", "  ", " \n ", "\\`${\\", "\u{e9}", "\u{1F600}", "}\n", "\"\"\"a\n  b\"\"\"", "q: \"$\"", "$\\{"];
+    for _ in 0..n_w {
+        let n = rng.range(1, 9);
+        let mut ops = vec![];
+        for _ in 0..n {
+            match rng.below(10) {
+                0 | 1 => ops.push(Wop::Indent),
+                2 | 3 => ops.push(Wop::Dedent),
+                4 => ops.push(Wop::WF((*rng.pick(CHUNKS)).to_string(), nitrogql_ast::base::Pos { line: rng.below(9), column: rng.below(9), file: rng.below(2), builtin: false }, if rng.chance(1, 2) { Some("n".into()) } else { None })),
+                _ => ops.push(Wop::W((*rng.pick(CHUNKS)).to_string())),
             }
+        }
+        writer_case(&mut out, &ops);
+    }
+
+    // 3. type-system documents: valid generated schemas, then syntactic documents (plain / adversarial strings)
+    let n_schema = if thorough { 400 } else { 60 };
+    for k in 0..n_schema {
+        let s = gen_schema(&mut rng, &SchemaCfg { descriptions: k % 2 == 0, custom_directives: true });
+        ts_case(&mut out, &s.render(), if k % 2 == 0 { "gen-schema-with-descriptions" } else { "gen-schema" });
+        // 4. operation documents over it
+        for _ in 0..(if thorough { 3 } else { 2 }) {
+            let d = gen_doc(&mut rng, &s, &DocCfg { shorthand: true, ..DocCfg::default() });
+            op_case(&mut out, &d.render(), "gen-doc");
         }
     }
+    let n_syn = if thorough { 3000 } else { 300 };
+    for k in 0..n_syn {
+        let mode = if k % 3 == 2 { Mode::Adversarial } else { Mode::Plain };
+        let label = if mode == Mode::Plain { "syntactic-plain" } else { "syntactic-adversarial" };
+        let src = Syn { rng: &mut rng, mode, top: true }.tsdoc(true);
+        ts_case(&mut out, &src, &format!("{label}-schema"));
+        let src = Syn { rng: &mut rng, mode, top: true }.opdoc(true);
+        op_case(&mut out, &src, &format!("{label}-operation"));
+    }
+
+    // 5. the server schema: resolved document -> remove_builtins -> plugin -> print
+    let n_server = if thorough { 400 } else { 50 };
+    for k in 0..n_server {
+        let plugin = k % 2 == 1;
+        let mode = if k % 4 >= 2 { Mode::Adversarial } else { Mode::Plain };
+        let src = server_source(&mut rng, plugin, mode);
+        server_case(&mut out, &src, plugin, if mode == Mode::Plain { "server-plain" } else { "server-adversarial" });
+    }
+
+    // 6. template literals through a real JavaScript engine
+    let mut node_stats = json!({"node_used": false});
+    if use_node {
+        let n_t = if thorough { 6000 } else { 600 };
+        let mut srcs: Vec<String> = vec!["`a\\`b`".into(), "`${1}`".into(), "`\\1`".into(), "`a\r\nb`".into(), "`\\u{1F600}`".into(), "`$\\{x}`".into(), "`$`".into(), "`a`b`".into(), "``".into(), "`".into()];
+        for _ in 0..n_t { srcs.push(random_template(&mut rng)); }
+        let work = PathBuf::from("/verif/.build/c16-node");
+        match node_run(NODE_EVAL, &json!(srcs), &work) {
+            Some(vals) if vals.len() == srcs.len() => {
+                let mut n_some = 0;
+                for (src, v) in srcs.iter().zip(vals.iter()) {
+                    if v.is_some() { n_some += 1; }
+                    out.distinct.insert(format!("tpl|{src}"));
+                    out.cases.push(format!("CTemplate {} {}", coq_text(src), coq_opt(v, |x| coq_text(x))), json!({"kind":"template","source":src,"node_value":v}));
+                }
+                node_stats = json!({"node_used": true, "templates": srcs.len(), "templates_with_value": n_some});
+            }
+            _ => { node_stats = json!({"node_used": false, "note": "node is not available or failed; the template-literal specification is not cross-checked against an engine in this run"}); }
+        }
+    }
+
+    // 7. end to end through the real CLI
+    let mut cli_stats = json!({"cli_used": false});
+    if let Some(cli) = &cli {
+        if cli.exists() {
+            cli_stats = cli_cases(&mut out, &mut rng, cli, if thorough { 60 } else { 12 }, Path::new("/verif/.build/c16-cli"), use_node);
+        }
+    }
+
+    out.cases.write(&args.out);
+    let n = out.cases.len();
+    let samples: Vec<_> = [3usize, n / 3, n / 2, (2 * n) / 3].iter().map(|i| {
+        let mut d = out.cases.descr[*i].clone();
+        for k in ["template", "module_text"] { if let Some(o) = d.as_object_mut() { o.remove(k); } }
+        d
+    }).collect();
+    let stats: J = out.stats.iter().map(|(k, v)| (k.clone(), json!(v))).collect::<serde_json::Map<_, _>>().into();
+    write_meta(&args.out, &json!({
+        "evaluations": n,
+        "distinct_nontrivial": out.distinct.len(),
+        "rule": "distinct inputs (string / operation list / source text / template source); every case runs the real code (print_string, JustWriter, JsStringWriter, parser + GraphQLPrinter + parser again, remove_builtins + model plugin, node, nitrogql-cli) and the model; documents rejected by the parser are not counted",
+        "samples": samples,
+        "distribution": {"streams": stats, "printed_documents_not_reparsed": out.reparse_fail, "node": node_stats, "cli": cli_stats,
+                         "string_alphabet_exhaustive_to_length": maxlen},
+    }));
 }
